@@ -59,7 +59,7 @@ template <class NS> static Outcome run_instance(const Inst &I, int kind, const v
         if (kind < 2) { typename NS::Inc s(vs, vc); if (kind == 0) s.solve(); else s.satisfy(); }
         else { typename NS::Stat s(vs, vc); if (kind == 2) s.solve(); else s.satisfy(); }
     } catch (vpsc::UnsatisfiedConstraint &u) { o.threw = true; o.what = "UnsatisfiedConstraint"; }
-    catch (vpsc::CriticalFailure &f) { o.threw = true; o.what = "assert " + f.what(); }
+    catch (vpsc::CriticalFailure &f) { o.threw = true; o.what = "assert " + f.what(); ctx.library_abort(f.what(), inst_str(I)); }
     catch (...) { o.threw = true; o.what = "other exception"; }
     for (int i = 0; i < I.n; i++) o.x.push_back(byLogical[i]->finalPosition);
     for (auto c : byIdx) { o.flag.push_back(c->unsatisfiable); o.anyFlag |= c->unsatisfiable; }
@@ -239,7 +239,7 @@ template <class NS> static void histories(int n, int depth, int variant, bool wi
                         if (P1 && feas) { for (auto c : vc) if (c->active) nontriv = true; }
                     }
                 }
-            } catch (vpsc::CriticalFailure &f) { if (P1) ctx.violation("inc_throw", {}, hist(depth - 1), f.what()); }
+            } catch (vpsc::CriticalFailure &f) { ctx.library_abort(f.what(), hist(depth - 1)); if (P1) ctx.violation("inc_throw", {}, hist(depth - 1), f.what()); }
             catch (...) { if (P1) ctx.violation("inc_throw", {}, hist(depth - 1), "exception"); }
             if (nontriv) ctx.count("nontrivial");
             for (auto c : vc) delete c;
